@@ -131,29 +131,146 @@ def conv_index(idx):
     return tuple(out)
 
 
+def cdata_of(c):
+    """compressed values of an array case: a flat list, or {"arange": n} for 1 .. n"""
+    if isinstance(c["cdata"], dict):
+        n = int(c["cdata"]["arange"])
+        return np.arange(1, n + 1).astype(np_dtype(c["dtype"])).reshape(c["cshape"])
+    return to_masked(c["cdata"], c["cshape"], c["dtype"])
+
+
+def var_array(c, name):
+    """the count / index / list values in the integer type of the case"""
+    return np.array(c[name], dtype=np.dtype(c.get("vdtype", "i4")))
+
+
 def build_array(c):
-    cdata = cfdm.Data(to_masked(c["cdata"], c["cshape"], c["dtype"]))
+    cdata = cfdm.Data(cdata_of(c))
     shape = tuple(c["shape"])
     k = c["k"]
     if k == "contig":
         return cfdm.RaggedContiguousArray(
             compressed_array=cdata, shape=shape,
-            count_variable=cfdm.Count(data=cfdm.Data(np.array(c["count"], dtype="i4"))))
+            count_variable=cfdm.Count(data=cfdm.Data(var_array(c, "count"))))
     if k == "indexed":
         return cfdm.RaggedIndexedArray(
             compressed_array=cdata, shape=shape,
-            index_variable=cfdm.Index(data=cfdm.Data(np.array(c["index"], dtype="i4"))))
+            index_variable=cfdm.Index(data=cfdm.Data(var_array(c, "index"))))
     if k == "ic":
         return cfdm.RaggedIndexedContiguousArray(
             compressed_array=cdata, shape=shape,
-            count_variable=cfdm.Count(data=cfdm.Data(np.array(c["count"], dtype="i4"))),
-            index_variable=cfdm.Index(data=cfdm.Data(np.array(c["index"], dtype="i4"))))
+            count_variable=cfdm.Count(data=cfdm.Data(var_array(c, "count"))),
+            index_variable=cfdm.Index(data=cfdm.Data(var_array(c, "index"))))
     if k == "gathered":
         return cfdm.GatheredArray(
             compressed_array=cdata, shape=shape,
             compressed_dimensions={int(c["cdim"]): tuple(c["cdims"])},
-            list_variable=cfdm.List(data=cfdm.Data(np.array(c["list"], dtype="i4"))))
+            list_variable=cfdm.List(data=cfdm.Data(var_array(c, "list"))))
     raise RuntimeError("bad kind")
+
+
+def write_raw(c, path):
+    """The compressed array as a CF-netCDF file made with netCDF4-python only (no cfdm):
+    sample data on the sample dimension, count / index / list variable in the integer
+    type of the case."""
+    k = c["k"]
+    shape = c["shape"]
+    vdt = c.get("vdtype", "i4")
+    data = cdata_of(c)
+    nc = netCDF4.Dataset(path, "w", format="NETCDF4")
+    try:
+        nc.Conventions = "CF-1.11"
+        dt = np_dtype(c["dtype"])
+        fill = {"i": -99, "u": int(np.iinfo(dt).max) if dt.kind == "u" else None, "f": -9999.0}.get(dt.kind)
+        if k == "gathered":
+            nl, ncd = len(c["ldims"]), len(c["dims"])
+            names = []
+            for i, n in enumerate(shape):
+                names.append(f"d{i}")
+                if not (nl <= i < nl + ncd):
+                    nc.createDimension(f"d{i}", n)
+            for i in range(nl, nl + ncd):
+                nc.createDimension(f"d{i}", shape[i])
+            nc.createDimension("gl", len(c["list"]))
+            lv = nc.createVariable("gl", vdt, ("gl",))
+            lv.compress = " ".join(names[nl:nl + ncd])
+            if len(c["list"]):
+                lv[:] = var_array(c, "list")
+            ddims = tuple(names[:nl]) + ("gl",) + tuple(names[nl + ncd:])
+        else:
+            nc.featureType = "timeSeriesProfile" if k == "ic" else "timeSeries"
+            nc.createDimension("inst", shape[0])
+            tnames = []
+            for i, n in enumerate(shape[(3 if k == "ic" else 2):]):
+                nc.createDimension(f"t{i}", n)
+                tnames.append(f"t{i}")
+            nc.createDimension("obs", c["cshape"][0])
+            if k == "contig":
+                cv = nc.createVariable("row_size", vdt, ("inst",))
+                cv.sample_dimension = "obs"
+                cv[:] = var_array(c, "count")
+            elif k == "indexed":
+                iv = nc.createVariable("parent", vdt, ("obs",))
+                iv.instance_dimension = "inst"
+                if len(c["index"]):
+                    iv[:] = var_array(c, "index")
+            else:
+                nc.createDimension("profile", len(c["count"]))
+                cv = nc.createVariable("row_size", vdt, ("profile",))
+                cv.sample_dimension = "obs"
+                iv = nc.createVariable("parent", vdt, ("profile",))
+                iv.instance_dimension = "inst"
+                if len(c["count"]):
+                    cv[:] = var_array(c, "count")
+                    iv[:] = var_array(c, "index")
+            ddims = ("obs",) + tuple(tnames)
+        v = nc.createVariable("tas", dt, ddims, fill_value=fill)
+        v.standard_name = "air_temperature"
+        if data.size:
+            v[...] = data
+    finally:
+        nc.close()
+
+
+def read_raw(c, path, row):
+    """cfdm.read of the independently written file, with both backends: everything the user
+    sees of the field's data"""
+    out = {}
+    for be in ("netCDF4", "h5netcdf"):
+        def r():
+            hs = cfdm.read(path, netcdf_backend=be)
+            hs = [h for h in hs if h.nc_get_variable(None) == "tas"]
+            if len(hs) != 1:
+                return {"n": len(hs)}
+            d = hs[0].data
+            ent = {"n": 1, "ctype": d.get_compression_type(), "array": dump_s(lambda: d.array, f"array of data read with {be}"),
+                   "vdtypes": {nm: str(getattr(d, "get_" + nm)().dtype) for nm in ("count", "index", "list")
+                               if getattr(d, "get_" + nm)(None) is not None}}
+            if c.get("idx") is not None and list(d.shape) == list(c["shape"]):
+                ent["sub"] = guarded(lambda: dump(d[conv_index(c["idx"])].array))
+            if c.get("expect") is not None and list(d.shape) == list(c["shape"]):
+                ex = c["expect"]
+                e = cfdm.Data(to_always_masked(ex["flat"], ex["shape"], c["dtype"]))
+                ent["eq"] = guarded(lambda: [bool(d.equals(e, ignore_fill_value=True)), bool(e.equals(d, ignore_fill_value=True))])
+                if ex.get("perturbed") is not None:
+                    p = cfdm.Data(to_always_masked(ex["perturbed"], ex["shape"], c["dtype"]))
+                    ent["eq_p"] = guarded(lambda: [bool(d.equals(p, ignore_fill_value=True)), bool(p.equals(d, ignore_fill_value=True))])
+            ent["ctype_after"] = d.get_compression_type()
+            u = d.uncompress()
+            ent["uncompress"] = {"ctype_u": u.get_compression_type(), "a": dump(u.array), "ctype_d": d.get_compression_type()}
+            if c.get("assign") is not None and list(d.shape) == list(c["shape"]):
+                pos, value = c["assign"]
+
+                def asg():
+                    e = d.copy()
+                    mi = np.unravel_index(pos, d.shape)
+                    e[tuple(int(x) for x in mi)] = cfdm.masked if value is None else value
+                    return {"ctype_e": e.get_compression_type(), "a": dump(e.array),
+                            "ctype_d": d.get_compression_type(), "d": dump(d.array)}
+                ent["assign"] = guarded(asg)
+            return ent
+        out[be] = guarded(r)
+    row["rawread"] = out
 
 
 def anc_arrays(d):
@@ -206,7 +323,7 @@ def raw_file(path):
     return out
 
 
-def write_and_read(f, path, row):
+def write_and_read(f, path, row, idx=None, shape=None):
     def w():
         cfdm.write(f, path)
         return True
@@ -223,6 +340,10 @@ def write_and_read(f, path, row):
             out["ctype"] = h.data.get_compression_type()
             out["array"] = dump(h.data.array)
             out["ncvar"] = h.nc_get_variable(None)
+            if idx is not None and list(h.data.shape) == list(shape):
+                out["sub"] = guarded(lambda: dump(h.data[conv_index(idx)].array))
+                out["sub_field"] = guarded(lambda: dump(h[conv_index(idx)].data.array))
+                out["ctype_after"] = h.data.get_compression_type()
         return out
     row["reread"] = guarded(r)
     row["reread_all"] = guarded(lambda: reread_all(path))
@@ -313,7 +434,55 @@ def do_array(c, row, scratch):
         except Exception as e:  # noqa
             row["write"] = {"err": errclass(e), "msg": "field: " + str(e)[:200]}
             return
-        write_and_read(f, os.path.join(scratch, f"a{os.getpid()}_{row['i']}.nc"), row)
+        write_and_read(f, os.path.join(scratch, f"a{os.getpid()}_{row['i']}.nc"), row, c.get("idx"), c["shape"])
+    if c.get("rawfile"):
+        path = os.path.join(scratch, f"r{os.getpid()}_{row['i']}.nc")
+
+        def wr():
+            write_raw(c, path)
+            return True
+        row["rawwrite"] = guarded(wr)
+        if "ok" in row["rawwrite"]:
+            read_raw(c, path, row)
+        try:
+            os.remove(path)
+        except OSError:
+            pass
+
+
+def equals_all(x, y):
+    out = {}
+    for name, ic in (("default", None), ("ignore", True), ("strict", False)):
+        kw = {} if ic is None else {"ignore_compression": ic}
+        out[name] = [guarded(lambda: bool(x.equals(y, **kw))), guarded(lambda: bool(y.equals(x, **kw)))]
+    return out
+
+
+def do_pair(c, row, scratch):
+    """two compressed arrays: what equals answers at the level of Data, of a construct and of a field"""
+    da = cfdm.Data(build_array(c["a"]))
+    db = cfdm.Data(build_array(c["b"]))
+    row["ctypes"] = [da.get_compression_type(), db.get_compression_type()]
+    row["arrays"] = [dump(da.array), dump(db.array)]
+    row["carrs"] = [dump(da.compressed_array), dump(db.compressed_array)]
+    row["data"] = equals_all(da, db)
+    cons = []
+    for d in (da, db):
+        x = cfdm.FieldAncillary(properties={"long_name": "anc"}, data=d.copy())
+        cons.append(x)
+    row["construct"] = equals_all(cons[0], cons[1])
+    fs = []
+    for d, cc in ((da, c["a"]), (db, c["b"])):
+        f = field_from_data(d.copy(), "timeSeriesProfile" if cc["k"] == "ic" else "timeSeries")
+        aux = cfdm.AuxiliaryCoordinate(properties={"long_name": "aux"}, data=d.copy())
+        f.set_construct(aux, axes=list(f.get_data_axes()))
+        fs.append(f)
+    row["field"] = equals_all(fs[0], fs[1])
+    # the same data in the field, the pair only in the metadata construct
+    g = fs[0].copy()
+    g.auxiliary_coordinate("long_name=aux").set_data(db.copy(), copy=False)
+    row["field_aux_only"] = equals_all(fs[0], g)
+    row["ctypes_after"] = [da.get_compression_type(), db.get_compression_type()]
 
 
 def build_field(c, suffix=""):
@@ -380,6 +549,13 @@ def do_compress(c, row, scratch):
     row["anc"] = anc_arrays(g.data)
     row["carr"] = guarded(lambda: dump_s(lambda: g.data.compressed_array, "compressed_array of the compressed field"))
     row["array"] = guarded(lambda: dump_s(lambda: g.data.array, "array of the compressed field"))
+    if c.get("idx") is not None:
+        idx = conv_index(c["idx"])
+        row["sub"] = {"data": guarded(lambda: dump_s(lambda: g.data[idx].array, "subspace of the compressed field's data")),
+                      "field": guarded(lambda: dump(g[idx].data.array)),
+                      "cons": {name: guarded(lambda: dump(g[idx].construct(key).data.array)) for name, key in keys.items()
+                               if name != "aux2"},
+                      "ctype_after": g.data.get_compression_type()}
     row["f_unchanged"] = guarded(lambda: bool(f.equals(f0)) and f.data.get_compression_type() == "")
     row["g_eq_f"] = guarded(lambda: bool(g.equals(f0)))
     row["f_eq_g"] = guarded(lambda: bool(f0.equals(g)))
@@ -408,7 +584,7 @@ def do_compress(c, row, scratch):
     row["g_eq_f_end"] = guarded(lambda: bool(g.equals(f0)))
     row["ctype_end"] = g.data.get_compression_type()
     if c.get("write"):
-        write_and_read(g, os.path.join(scratch, f"c{os.getpid()}_{row['i']}.nc"), row)
+        write_and_read(g, os.path.join(scratch, f"c{os.getpid()}_{row['i']}.nc"), row, c.get("idx"), c["shape"])
     post = c.get("post")
     if post is not None:
         # a longer history: compress, then assign to the data of the field or of
@@ -483,6 +659,8 @@ def main():
                 do_compress(c, row, scratch)
             elif c["k"] == "multi":
                 do_multi(c, row, scratch)
+            elif c["k"] == "pair":
+                do_pair(c, row, scratch)
             else:
                 do_array(c, row, scratch)
         except Exception as e:  # noqa
